@@ -223,20 +223,22 @@ class Run(OpsMixin, CallsMixin):
             return '%s.%s:%s' % (mod, c.target.split('::')[1], tag)
         return 'lemma.%s:%s' % (c.name, tag)
 
-    def oblige(self, goal, kind, tag, node=None, props=None, note=''):
+    def oblige(self, goal, kind, tag, node=None, props=None, note='', assume_after=True):
         """Record a proof obligation `pc => goal` and continue under the assumption that it holds."""
         goal_s = z3.simplify(goal) if not z3.is_quantifier(goal) else goal
         goal_s = self.expand_exists(goal_s)
         if z3.is_and(goal_s) and goal_s.num_args() > 1:
             # one query per conjunct (same clause id): small goals are what the solver is good at
             for c in goal_s.children():
-                self.oblige(c, kind, tag, node, props, note)
+                self.oblige(c, kind, tag, node, props, note, assume_after)
             return
         if not self.ch.replaying:
             ob = Obligation(self.oid(tag), kind, list(self.pc), goal_s, self.where(node) if node is not None else '',
                             self.contract.target or self.contract.name,
                             tuple(props) if props else self.contract.props, list(self.witnesses), note)
             self.obligations.append(ob)
+        if not assume_after:
+            return      # postconditions are judged independently of each other
         if z3.is_false(goal_s):
             raise PathEnd()
         self.assume(goal_s)
@@ -436,7 +438,7 @@ class Run(OpsMixin, CallsMixin):
                 self.oblige(self.type_constraint(result, cl.extra['type']), 'post', 'returns-type', None)
         for cl in contract.of('ensures'):
             g = self.ev_spec(cl.expr)
-            self.oblige(g, 'post', cl.tag or ('post@%d' % cl.line), None, cl.props)
+            self.oblige(g, 'post', cl.tag or ('post@%d' % cl.line), None, cl.props, assume_after=False)
 
     def check_exceptional(self, contract, e):
         fr = self.frames[-1]
